@@ -268,6 +268,16 @@ def exact_posdef(A):
     return True
 
 
+def area_quad(geo):
+    """area of the image of a bilinear degree-1 map (shoelace formula on the control points), exact"""
+    c = geo.coeffs
+    P = [c[0, 0], c[0, 1], c[1, 1], c[1, 0]]
+    s = F(0)
+    for a, b in zip(P, P[1:] + P[:1]):
+        s += F(float(a[0])) * F(float(b[1])) - F(float(b[0])) * F(float(a[1]))
+    return abs(s) / 2
+
+
 def adj_inv(X):
     """(det, inverse) in Fractions by cofactors (model-free oracle for det_and_inv/inverses)"""
     n = len(X)
@@ -848,7 +858,23 @@ def run(ctx):
     def oracle_inner(c):
         kvs = tuple(bspline.KnotVector(np.array(k), p) for k, p in c['kvs'])
         if c['geo_coeffs'] is not None:
-            return None      # handled by the identities stream (area / volume)
+            # same geometry, f = 1: integrate, sum(inner_products) and sum(mass) are all the measure of the mapped box (> 0)
+            gk = tuple(bspline.make_knots(1, float(kv.kv[0]), float(kv.kv[-1]), 1) for kv in kvs)
+            geo = bspline.BSplineFunc(gk, np.array(c['geo_coeffs'], dtype=float))
+            one = lambda *X: 1.0 + 0 * X[0]
+            gi = float(assemble.integrate(kvs, one, geo=geo))
+            ip = float(np.asarray(assemble.inner_products(kvs, one, geo=geo)).sum())
+            ms = float(assemble.mass(kvs, geo=geo).sum())
+            ref = area_quad(geo) if len(kvs) == 2 else None
+            if not gi > 0:
+                return 'integrate(1, geo) = %r is not positive (measure of the mapped domain%s)' % (gi, '' if ref is None else ' = %s' % ref)
+            if not ip > 0:
+                return 'sum(inner_products(1, geo)) = %r is not positive (measure of the mapped domain)' % ip
+            if ref is not None and (abs(F(gi) - ref) > OTOL * ref or abs(F(ip) - ref) > OTOL * ref):
+                return 'integrate(1, geo) = %r, sum(inner_products(1, geo)) = %r but the area (shoelace formula) is %s' % (gi, ip, ref)
+            if abs(gi - ms) > 2.0 ** -36 * abs(ms) or abs(ip - ms) > 2.0 ** -36 * abs(ms):
+                return 'integrate(1, geo) = %r, sum(inner_products(1, geo)) = %r, sum(mass(geo)) = %r disagree' % (gi, ip, ms)
+            return None
         cf = c['f_coeffs']
 
         def f(*X):
@@ -1038,14 +1064,6 @@ def run(ctx):
             if n >= 2 and ev[1] < 2.0 ** -30 * ev[-1]:
                 return 'kernel of the stiffness matrix is larger than the constants: second eigenvalue %r (%s)' % (float(ev[1]), tag)
         return None
-
-    def area_quad(geo):
-        c = geo.coeffs
-        P = [c[0, 0], c[0, 1], c[1, 1], c[1, 0]]
-        s = F(0)
-        for a, b in zip(P, P[1:] + P[:1]):
-            s += F(float(a[0])) * F(float(b[1])) - F(float(b[0])) * F(float(a[1]))
-        return abs(s) / 2
 
     for it in range(24 if quick else 240):
         dim = 1 + it % 3
